@@ -31,7 +31,7 @@ func init() {
 	})
 }
 
-var c11Words = []string{"terminal", "exclusive", "batch", "version", "reload", "private", "ip", "route", "interface", "running-config", "run", "t", "int", "counters"}
+var c11Words = []string{"terminal", "exclusive", "batch", "version", "reload", "private", "ip", "route", "interface", "running-config", "run", "t", "int", "counters", "vrf=mgmt", "src*any"}
 var c11Cmds = []string{"show", "configure", "reload", "write", "clear", "|"}
 
 type patForm struct {
@@ -438,7 +438,15 @@ func runC11(b *mon.B) {
 					if p == "" {
 						continue
 					}
-					args = append(args, "cmd-arg="+p)
+					// the optional separator now and then: the split is at the FIRST of '=' and '*'
+					// whatever the value contains
+					args = append(args, "cmd-arg"+r.PickS("=", "=", "=", "*")+p)
+				}
+				if r.Chance(1, 8) {
+					args[0] = "service*shell"
+				}
+				if r.Chance(1, 8) {
+					args[1] = "cmd*" + cmd
 				}
 				switch r.Intn(8) {
 				case 0:
